@@ -437,7 +437,7 @@ type vfDirected struct {
 	Mixed     bool            // odd messages are sent with the opposite ordering (ordered/unordered share the stream)
 	Burst     bool            // all messages are written before the network moves (one FORWARD-TSN can cover several messages)
 	SeqWrap   int             // >0: SSN/MID counters preset this far below their wrap
-	RelFrag bool // the fully reliable stream sends two-fragment messages and loses the first copy of each last fragment
+	RelFrag   bool            // the fully reliable stream sends two-fragment messages and loses the first copy of each last fragment
 }
 
 func vfRunDirected(t *testing.T, tr *vfTrace, x vfDirected) bool {
